@@ -105,6 +105,9 @@ func issuerFromForwardedOrHost(path string, c *issuerConfig) func(bool) (IssuerF
 		if err := ValidateIssuerPath(issuerPath); err != nil {
 			return nil, err
 		}
+		if strings.HasSuffix(path, "#") {
+			return nil, ErrInvalidIssuerPath
+		}
 		return func(r *http.Request) string {
 			if host, ok := hostFromForwarded(r, c.headers); ok {
 				return dynamicIssuer(host, path, allowInsecure)
@@ -155,11 +158,14 @@ func ValidateIssuer(issuer string, allowInsecure bool) error {
 			return ErrInvalidIssuerHTTPS
 		}
 	}
+	if strings.HasSuffix(issuer, "#") {
+		return ErrInvalidIssuerPath
+	}
 	return ValidateIssuerPath(u)
 }
 
 func ValidateIssuerPath(issuer *url.URL) error {
-	if issuer.Fragment != "" || len(issuer.Query()) > 0 {
+	if issuer.Fragment != "" || issuer.RawQuery != "" || issuer.ForceQuery {
 		return ErrInvalidIssuerPath
 	}
 	return nil
